@@ -176,10 +176,24 @@ class Session:
             st, val = self._try(lambda: w.step(ad))
         else:
             a = op[1]
-            st, val = self._try(lambda: w.get_obs(self.aid(a)))
+            if len(self.ops) % 3 == 1:
+                # a caller-supplied `fusion_matrix=` that claims every handshake: the wrapper fuses what IT tracked
+                bogus = {self.aid(b): True for b in range(self.n) if b != a}
+                st, val = self._try(lambda: w.get_obs(self.aid(a), fusion_matrix=bogus))
+            else:
+                st, val = self._try(lambda: w.get_obs(self.aid(a)))
             if st == "ok" and 0 <= a < self.n and self.script["learning"][a]:
                 self.check_obs(a, val)
         self.record(op, st, val, lb, fb)
+        if op[0] not in ("r", "s") and st == "ok":
+            # the caller owns the observation it was handed: it overwrites the message buffer in place ("every sender
+            # wrote to me"); the wrapper's own buffers are not the caller's to change
+            try:
+                mb = val["message_buffer"]
+                for k in list(mb):
+                    mb[k] = True
+            except Exception:  # noqa: BLE001
+                pass
         return st, val
 
     def check_obs(self, a, val):
